@@ -282,7 +282,66 @@ pub const REPS: &[(&str, &str, &str)] = &[
      "(prog (fn 0 () (opt i32) (blk ((let 0 _ (none)) (do (set 0 0 () (some (some (int _))))) (do (match (try (var 0)) (arm (p some b 1) _ (blk ((do (ret ret (some (var 1))))))) (arm (p none n) _ (blk ((do (ret ret (none))))))))))))"),
     ("match-all-arms-return", "fn f0(v0: Option[i32]) -> i32 { match v0 { Some(v1) => { return v1; } None => { return 0; } }; }\n",
      "(prog (fn 0 ((0 (opt i32))) i32 (blk ((do (match (var 0) (arm (p some b 1) _ (blk ((do (ret ret (var 1)))))) (arm (p none n) _ (blk ((do (ret ret (int _))))))))))))"),
-    ("method-on-int", "fn f0(v0: i32) -> u64 { v0.len() }\n", "(prog (fn 0 ((0 i32)) u64 (blk () (mcall (var 0) 0))))"),
+    ("method-on-int", "fn f0(v0: i32) -> u64 { v0.len() }\n", "(prog (fn 0 ((0 i32)) u64 (blk () (mcall (var 0) 0))))"),    // rules special-cased for a built-in type, applied to a type the script declares itself (phase `shadow`
+    // runs each of them again with `T0` spelled as every built-in type name the script does not mention)
+    ("own-enum-try-in-fn-returning-it", "enum T0 { K0, K1(i32) }\nfn f0(v0: i32?) -> T0 { let v1 = v0?; T0.K1(v1) }\n",
+     "(prog (enum 0 ((0) (1 i32))) (fn 0 ((0 (opt i32))) (t 0) (blk ((let 1 _ (try (var 0)))) (ctor 0 1 (var 1)))))"),
+    ("own-record-try-in-fn-returning-it", "record T0 { a0: i32 }\nfn f0(v0: i32?) -> T0 { T0 { a0: v0? } }\n",
+     "(prog (rec 0 ((0 i32))) (fn 0 ((0 (opt i32))) (t 0) (blk () (record 0 (0 (try (var 0)))))))"),
+    ("own-enum-try-on-its-value", "enum T0 { K0, K1(i32) }\nfn f0(v0: T0, v1: i32?) -> i32? { let v2: i32 = v0?; v1 }\n",
+     "(prog (enum 0 ((0) (1 i32))) (fn 0 ((0 (t 0)) (1 (opt i32))) (opt i32) (blk ((let 2 i32 (try (var 0)))) (var 1))))"),
+    ("own-record-add", "record T0 { a0: i32 }\nfn f0(v0: T0, v1: T0) -> T0 { v0 + v1 }\n",
+     "(prog (rec 0 ((0 i32))) (fn 0 ((0 (t 0)) (1 (t 0))) (t 0) (blk () (bin add (var 0) (var 1)))))"),
+    ("own-enum-add", "enum T0 { K0, K1(i32) }\nfn f0(v0: T0, v1: T0) -> T0 { v0 + v1 }\n",
+     "(prog (enum 0 ((0) (1 i32))) (fn 0 ((0 (t 0)) (1 (t 0))) (t 0) (blk () (bin add (var 0) (var 1)))))"),
+    ("own-record-add-unused", "record T0 { a0: i32 }\nfn f0(v0: T0, v1: T0) { let v2 = v0 + v1; }\n",
+     "(prog (rec 0 ((0 i32))) (fn 0 ((0 (t 0)) (1 (t 0))) unit (blk ((let 2 _ (bin add (var 0) (var 1)))))))"),
+    ("own-record-sub", "record T0 { a0: i32 }\nfn f0(v0: T0, v1: T0) -> T0 { v0 - v1 }\n",
+     "(prog (rec 0 ((0 i32))) (fn 0 ((0 (t 0)) (1 (t 0))) (t 0) (blk () (bin sub (var 0) (var 1)))))"),
+    ("own-record-mul", "record T0 { a0: i32 }\nfn f0(v0: T0, v1: T0) -> T0 { v0 * v1 }\n",
+     "(prog (rec 0 ((0 i32))) (fn 0 ((0 (t 0)) (1 (t 0))) (t 0) (blk () (bin mul (var 0) (var 1)))))"),
+    ("own-record-mod", "record T0 { a0: i32 }\nfn f0(v0: T0, v1: T0) -> T0 { v0 % v1 }\n",
+     "(prog (rec 0 ((0 i32))) (fn 0 ((0 (t 0)) (1 (t 0))) (t 0) (blk () (bin mod (var 0) (var 1)))))"),
+    ("own-record-lt", "record T0 { a0: i32 }\nfn f0(v0: T0, v1: T0) { let v2 = v0 < v1; }\n",
+     "(prog (rec 0 ((0 i32))) (fn 0 ((0 (t 0)) (1 (t 0))) unit (blk ((let 2 _ (bin lt (var 0) (var 1)))))))"),
+    ("own-record-ge", "record T0 { a0: i32 }\nfn f0(v0: T0, v1: T0) { let v2 = v0 >= v1; }\n",
+     "(prog (rec 0 ((0 i32))) (fn 0 ((0 (t 0)) (1 (t 0))) unit (blk ((let 2 _ (bin ge (var 0) (var 1)))))))"),
+    ("own-record-and", "record T0 { a0: i32 }\nfn f0(v0: T0) { let v2 = v0 && v0; }\n",
+     "(prog (rec 0 ((0 i32))) (fn 0 ((0 (t 0))) unit (blk ((let 2 _ (bin and (var 0) (var 0)))))))"),
+    ("own-record-neg", "record T0 { a0: i32 }\nfn f0(v0: T0) -> T0 { -v0 }\n",
+     "(prog (rec 0 ((0 i32))) (fn 0 ((0 (t 0))) (t 0) (blk () (neg (var 0)))))"),
+    ("own-record-not", "record T0 { a0: i32 }\nfn f0(v0: T0) { let v1 = !v0; }\n",
+     "(prog (rec 0 ((0 i32))) (fn 0 ((0 (t 0))) unit (blk ((let 1 _ (not (var 0)))))))"),
+    ("own-record-as-condition", "record T0 { a0: i32 }\nfn f0(v0: T0) { if v0 { } }\n",
+     "(prog (rec 0 ((0 i32))) (fn 0 ((0 (t 0))) unit (blk () (if (var 0) (blk ())))))"),
+    ("own-record-as-loop-condition", "record T0 { a0: i32 }\nfn f0(v0: T0) { while v0 { } }\n",
+     "(prog (rec 0 ((0 i32))) (fn 0 ((0 (t 0))) unit (blk () (while (var 0) (blk ())))))"),
+    ("own-record-iterated", "record T0 { a0: i32 }\nfn f0(v0: T0) { for v1 in v0 { } }\n",
+     "(prog (rec 0 ((0 i32))) (fn 0 ((0 (t 0))) unit (blk () (for 1 (var 0) (blk ())))))"),
+    ("own-record-from-int-literal", "record T0 { a0: i32 }\nfn f0() -> T0 { 1 }\n",
+     "(prog (rec 0 ((0 i32))) (fn 0 () (t 0) (blk () (int _))))"),
+    ("own-record-from-float-literal", "record T0 { a0: i32 }\nfn f0() -> T0 { 1.5 }\n",
+     "(prog (rec 0 ((0 i32))) (fn 0 () (t 0) (blk () (float _))))"),
+    ("own-record-from-bool-literal", "record T0 { a0: i32 }\nfn f0() -> T0 { true }\n",
+     "(prog (rec 0 ((0 i32))) (fn 0 () (t 0) (blk () (bool))))"),
+    ("own-record-from-string-literal", "record T0 { a0: i32 }\nfn f0() -> T0 { \"s\" }\n",
+     "(prog (rec 0 ((0 i32))) (fn 0 () (t 0) (blk () (str))))"),
+    ("own-record-from-f-string", "record T0 { a0: i32 }\nfn f0() -> T0 { (f\"x{1}-\") }\n",
+     "(prog (rec 0 ((0 i32))) (fn 0 () (t 0) (blk () (fstr (int _)))))"),
+    ("own-record-in-f-string", "record T0 { a0: i32 }\nfn f0(v0: T0) { let v1 = (f\"x{v0}-\"); }\n",
+     "(prog (rec 0 ((0 i32))) (fn 0 ((0 (t 0))) unit (blk ((let 1 _ (fstr (var 0)))))))"),
+    ("own-record-matched", "record T0 { a0: i32 }\nfn f0(v0: T0) -> i32 { match v0 { _ => { 0 } } }\n",
+     "(prog (rec 0 ((0 i32))) (fn 0 ((0 (t 0))) i32 (blk () (match (var 0) (arm _ _ (blk () (int _)))))))"),
+    ("own-enum-matched-with-some", "enum T0 { K0, K1(i32) }\nfn f0(v0: T0) -> i32 { match v0 { Some(v1) => { v1 } _ => { 0 } } }\n",
+     "(prog (enum 0 ((0) (1 i32))) (fn 0 ((0 (t 0))) i32 (blk () (match (var 0) (arm (p some b 1) _ (blk () (var 1))) (arm _ _ (blk () (int _)))))))"),
+    ("own-record-where-optional-expected", "record T0 { a0: i32 }\nfn f0(v0: T0) -> i32? { v0 }\n",
+     "(prog (rec 0 ((0 i32))) (fn 0 ((0 (t 0))) (opt i32) (blk () (var 0))))"),
+    ("own-record-where-list-expected", "record T0 { a0: i32 }\nfn f0(v0: T0) { let v1 = [1] + v0; }\n",
+     "(prog (rec 0 ((0 i32))) (fn 0 ((0 (t 0))) unit (blk ((let 1 _ (bin add (list (int _)) (var 0)))))))"),
+    ("own-record-identity", "record T0 { a0: i32 }\nfn f0(v0: T0) -> T0 { v0 }\n",
+     "(prog (rec 0 ((0 i32))) (fn 0 ((0 (t 0))) (t 0) (blk () (var 0))))"),
+    ("own-record-eq", "record T0 { a0: i32 }\nfn f0(v0: T0, v1: T0) { let v2 = v0 == v1; }\n",
+     "(prog (rec 0 ((0 i32))) (fn 0 ((0 (t 0)) (1 (t 0))) unit (blk ((let 2 _ (bin eq (var 0) (var 1)))))))"),
 ];
 
 pub fn compare(rt: &Runtime<NoCtx>, drv: &mut Driver, what: &str, src: &str, sexp: &str, id: serde_json::Value, rep: &mut Report) {
